@@ -76,8 +76,7 @@ def main():
                 except symobs.Unusable as ex:
                     c.discard("independent reader: " + str(ex).split(":")[0][:60])
     c.cov["evaluations"] = len(events)
-    case_of = lambda ev: symcamp.payload_of(ev)
-    vf.pmap(lambda sh: c.validate("CorpusTrace.tla", "CorpusTrace.cfg", sh, case_of=case_of, env=symcamp.TLC_ENV), symcamp.shards(events, 250), jobs=3)
+    symcamp.judge(c, "CorpusTrace.tla", "CorpusTrace.cfg", events, shard=250)
 
     nontrivial, kinds = set(), {}
     for ev in events:
